@@ -1,4 +1,4 @@
-//! Probe harness module (scratch).
+//! Stubs, ghost logs and symbolic RNG used by the contract harnesses (compiled only under cfg(kani)).
 #![allow(static_mut_refs)]
 
 pub mod oracle {
@@ -138,3 +138,74 @@ impl cosmian_crypto_core::reexport::rand_core::RngCore for SymRng {
 }
 impl cosmian_crypto_core::reexport::rand_core::CryptoRng for SymRng {}
 
+
+
+/// Declares one obligation: a Kani proof harness with the trusted-base stubs of DESIGN §3.3 applied.
+macro_rules! kproof {
+    ($(#[$m:meta])* fn $name:ident() $body:block) => {
+        #[kani::proof]
+        #[kani::stub(tiny_keccak::Sha3::v256, crate::kani_verif::hstub::v256)]
+        #[kani::stub(tiny_keccak::Sha3::v384, crate::kani_verif::hstub::v384)]
+        #[kani::stub(tiny_keccak::Sha3::v512, crate::kani_verif::hstub::v512)]
+        #[kani::stub(<tiny_keccak::Sha3 as tiny_keccak::Hasher>::update, crate::kani_verif::hstub::sha3_update)]
+        #[kani::stub(<tiny_keccak::Sha3 as tiny_keccak::Hasher>::finalize, crate::kani_verif::hstub::sha3_finalize)]
+        #[kani::stub(tiny_keccak::Kmac::v256, crate::kani_verif::hstub::kmac_v256)]
+        #[kani::stub(<tiny_keccak::Kmac as tiny_keccak::Hasher>::update, crate::kani_verif::hstub::kmac_update)]
+        #[kani::stub(<tiny_keccak::Kmac as tiny_keccak::Hasher>::finalize, crate::kani_verif::hstub::kmac_finalize)]
+        #[kani::stub(alloc::fmt::format, crate::kani_verif::hstub::fmt_stub)]
+        #[kani::stub(zeroize::optimization_barrier, crate::kani_verif::hstub::noop_barrier)]
+        $(#[$m])*
+        fn $name() $body
+    };
+}
+pub(crate) use kproof;
+
+/// Turns a `Result` into an `Option` without running the drop glue of the error
+/// (the recursive drop glue of `CryptoCoreError`/`io::Error` is extremely costly for CBMC).
+pub(crate) fn ok_or_forget<T>(r: Result<T, crate::Error>) -> Option<T> {
+    match r {
+        Ok(v) => Some(v),
+        Err(e) => {
+            std::mem::forget(e);
+            None
+        }
+    }
+}
+/// Error variant as a small integer (messages are not compared), forgetting the error.
+pub(crate) fn err_kind<T>(r: Result<T, crate::Error>) -> u8 {
+    use crate::Error::*;
+    match r {
+        Ok(v) => {
+            std::mem::forget(v);
+            0
+        }
+        Err(e) => {
+            let k = match &e {
+                Kem(_) => 1,
+                CryptoCoreError(_) => 2,
+                KeyError(_) => 3,
+                AttributeNotFound(_) => 4,
+                ExistingDimension(_) => 5,
+                OperationNotPermitted(_) => 6,
+                InvalidBooleanExpression(_) => 7,
+                InvalidAttribute(_) => 8,
+                DimensionNotFound(_) => 9,
+                ConversionFailed(_) => 10,
+                Tracing(_) => 11,
+            };
+            std::mem::forget(e);
+            k
+        }
+    }
+}
+pub(crate) const E_KEM: u8 = 1;
+pub(crate) const E_CRYPTO: u8 = 2;
+pub(crate) const E_KEY: u8 = 3;
+pub(crate) const E_ATTR_NOT_FOUND: u8 = 4;
+pub(crate) const E_EXISTING_DIM: u8 = 5;
+pub(crate) const E_NOT_PERMITTED: u8 = 6;
+pub(crate) const E_INVALID_BOOL: u8 = 7;
+pub(crate) const E_INVALID_ATTR: u8 = 8;
+pub(crate) const E_DIM_NOT_FOUND: u8 = 9;
+pub(crate) const E_CONVERSION: u8 = 10;
+pub(crate) const E_TRACING: u8 = 11;
